@@ -1015,10 +1015,10 @@ Proof.
     now rewrite Hx, IHr. }
   assert (M : forall k,
     map (fun c => match c with T _ cn ck =>
-           (if first_is_leaf ck then GPara (node_inlines cn) else GPlain (node_inlines cn))
+           (if first_is_leaf ck then GPara (out_inlines dir cn) else GPlain (out_inlines dir cn))
              :: flat_map (project_node dir 0) ck end) (labelf ts k) =
     map (fun c => match c with T _ cn ck =>
-           (if first_is_leaf ck then GPara (node_inlines cn) else GPlain (node_inlines cn))
+           (if first_is_leaf ck then GPara (out_inlines dir cn) else GPlain (out_inlines dir cn))
              :: flat_map (project_node dir 0) ck end) ts).
   { clear K. induction IH as [|x r [_ Hx] _ IHr]; intros k; cbn [labelf map]; [reflexivity|].
     rewrite IHr. f_equal. destruct x as [j cn ck]. rewrite label_T. cbn [t_children] in Hx.
